@@ -251,7 +251,7 @@ func readStage(fname string, r *rand.Rand, n int) (core.Stage, error) {
 					emit(core.Case{"kind": "read", "fixture": fname, "store": store, "tree": t, "at": at, "p": p, "via": []string{"find", "constrain"}[r.Intn(2)]})
 				}
 				if i%4 == 0 {
-					q := invalidQueries[r.Intn(len(invalidQueries))]
+					q := invalidQueries[(i/4)%len(invalidQueries)] // each in turn
 					emit(core.Case{"kind": "read", "fixture": fname, "store": store, "tree": t, "at": abs.Path{},
 						"p": dread.Params{Invalid: true, Raw: q}, "via": []string{"find", "constrain"}[r.Intn(2)]})
 				}
